@@ -41,7 +41,18 @@ pub fn para_fragments<'a>(para: &'a str, o: &OptSpec, splitter: &'a textwrap::Wo
 
 impl<'a> Para<'a> {
     pub fn frags(&self) -> Vec<Frag> {
-        self.words.iter().map(|w| Frag { w: w.width as f64, ws: w.whitespace.len() as f64, pw: w.penalty.len() as f64 }).collect()
+        // A fragment's width is its display width (C10 pins what that is): measured with the harness's reference
+        // wherever the piece is free of malformed sequences, so that a width cached wrongly somewhere in the
+        // pipeline (and then used consistently by the wrap algorithm) cannot hide. Pieces of a cut sequence
+        // (KF-2) and other malformed pieces keep the library's value.
+        self.words
+            .iter()
+            .map(|w| {
+                let width = if crate::oracle::ansi::clean_ansi(w.word) { crate::oracle::width::ref_width(w.word) } else { w.width };
+                // (the whitespace likewise by its display width: it consists of U+0020 only unless the pipeline is broken)
+                Frag { w: width as f64, ws: crate::oracle::width::ref_width(w.whitespace) as f64, pw: w.penalty.len() as f64 }
+            })
+            .collect()
     }
 
     /// Text of a line holding words i..j (j > i), without and with the rendered penalty.
@@ -112,6 +123,33 @@ pub fn either_reading(text: &str, le: &str, obs: &mut crate::run::Obs, mut f: im
         }
     }
     v
+}
+
+/// Display widths are not additive over the fragments of a paragraph when it
+/// contains malformed escape sequences, or when a split point of the configured
+/// splitter falls inside a sequence (KF-2 for the hyphen splitter; the harness's
+/// custom splitter does the same between digits of CSI parameters). If the whole
+/// paragraph, with the indent it would carry, fits by display width, returning
+/// it whole is exactly what C05 asks for, whatever its fragments add up to; the
+/// text-level halves of C03 and C07 admit that line as an alternative reading of
+/// such a paragraph (and only of such a paragraph: where widths are additive the
+/// one-line result is judged like any other arrangement).
+pub fn whole_line_alternative<'a>(p: &Para<'a>, o: &OptSpec, first_paragraph: bool) -> Option<&'a str> {
+    let para = p.text;
+    let total: f64 = p.frags().iter().map(|f| f.w + f.ws).sum();
+    // (a hyphen-inserting custom splitter is the third such regime: the width of the hyphen it would insert is
+    // charged to a fragment even when a narrower, e.g. zero-width, fragment follows, so the first-fit rule can
+    // refuse a paragraph that fits as a whole)
+    if crate::oracle::ansi::clean_ansi(para) && total == crate::oracle::width::ref_width(para) as f64 && o.split != crate::case::Split::Custom {
+        return None;
+    }
+    let ind: &str = if first_paragraph { &o.ii } else { &o.si };
+    let dw = textwrap::core::display_width;
+    if dw(ind) + dw(para).min(crate::oracle::width::ref_width(para)) <= o.width {
+        Some(para.trim_end_matches(' '))
+    } else {
+        None
+    }
 }
 
 /// Line widths for paragraph number `p` of the text given how many lines have
